@@ -44,6 +44,8 @@ Plan gen_c14(sk::Rng& r, Tier tier) {
             op.k = "burst"; op.a = {static_cast<std::int64_t>(r.below(2)), r.range(1, 3), r.range(1, size >= 65536 ? 2 : 5), size};
         } else if (c < 80) { op.k = "oversend"; op.a = {static_cast<std::int64_t>(r.below(2))}; }
         else if (c < 88) { op.k = "raw_oversize"; op.a = {r.pick<std::int64_t>({(1 << 20) + 1, 1 << 24, 0x7fffffff, 0xffffffffLL}), r.pick<std::int64_t>({0, 1, 100})}; }
+        // the receiving application stops reading for a while (its handler is busy): buffers fill up, senders block for seconds
+        else if (c < 93) { op.k = "stall"; op.a = {static_cast<std::int64_t>(r.below(2)), r.pick<std::int64_t>({800, 3000, 6000, 12000, 30000})}; }
         else if (faulty) { op.k = "reset"; op.a = {static_cast<std::int64_t>(r.below(2))}; }
         else { op.k = "pause"; op.a = {r.range(1, 500)}; }
         p.ops.push_back(op);
@@ -181,9 +183,14 @@ void exec_c14(const Plan& p, Ctx& ctx) {
             if (sk::fault_reset_stream(op.at(0) == 0 ? A.actor.pid : B.actor.pid, 0)) { reset_injected = true; ctx.fault("conn_reset_injected"); }
         } else if (op.k == "pause") {
             sk::sleep_ns(op.at(0) * kMs);
+        } else if (op.k == "stall") {
+            (op.at(0) == 0 ? A : B).stall_next_message_ns = op.at(1) * kMs;
+            ctx.boundary("receiver_stalled");
         }
     }
-    // quiesce: let everything in flight arrive
+    // quiesce: no further stalls are armed; a handler that is stalling right now finishes first; then let everything in flight arrive
+    A.stall_next_message_ns = B.stall_next_message_ns = 0;
+    sk::wait_until([&] { return A.stalls_in_progress == 0 && B.stalls_in_progress == 0; }, 120 * kSec);
     sk::sleep_ns(5 * kSec);
     std::size_t last_a = 0, last_b = 0;
     for (int i = 0; i < 100; ++i) {
@@ -290,7 +297,7 @@ Scenario make_c14() {
     s.stub_components = {"OS: threads -> fibers, sockets -> simulated TCP, clock, entropy", "peers learn each other's public identity out of band (as the repository's tests do)"};
     s.assumptions = {"a blocking send() may be interleaved with another thread's send() on the same socket only while it waits for buffer space (Linux releases the socket lock there)",
                      "after an injected connection reset delivery is only required to be at-most-once and never partial"};
-    s.rule = "plan = socket buffer range (1 B..256 KiB), latency, preemption and short-I/O rates + 2..10 ops (bursts of 1..3 concurrent senders x 1..5 payloads of sizes {0,1,63,64,65,4095,64Ki,1Mi-1,1Mi}, sends above the limit, scripted peer announcing an oversized frame, connection reset, pause); non-trivial = concurrent senders, a payload at the size limit, an oversized frame/send, or an injected reset; distinct = plan hash";
+    s.rule = "plan = socket buffer range (1 B..256 KiB), latency, preemption and short-I/O rates + 2..10 ops (bursts of 1..3 concurrent senders x 1..5 payloads of sizes {0,1,63,64,65,4095,64Ki,1Mi-1,1Mi}, sends above the limit, scripted peer announcing an oversized frame, connection reset, a receiver whose handler stalls for 0.8..30 s so that senders block on full buffers, pause); non-trivial = concurrent senders, a payload at the size limit, an oversized frame/send, or an injected reset; distinct = plan hash";
     s.gen = gen_c14; s.exec = exec_c14; s.kernel_knobs = knobs_c14;
     s.quick_runs = 1500; s.thorough_runs = 60000; s.quick_secs = 60; s.thorough_secs = 900;
     return s;
